@@ -1069,7 +1069,10 @@ class Engine(TorchDispatchMode):
         return self._minmax_dim(a, dim, keepdim, False)[1]
 
     # ---------------------------------------------------------------- sort / topk
-    def _sorted_rows(self, a, d, descending, k=None):
+    def _sorted_rows(self, a, d, descending, k=None, stable=True):
+        """stable=False only matters when self.adversarial_ties is set: the order among equal keys of a non-stable sort is then left to the solver
+        (torch documents it as unspecified), instead of 'lowest index first'"""
+        adversarial = bool(getattr(self, "adversarial_ties", False)) and not stable
         mshape, rows = self.rows(a, d)
         n = mshape[-1]
         k = n if k is None else k
@@ -1100,13 +1103,19 @@ class Engine(TorchDispatchMode):
                 return s_cmp("eq", x, y)
 
             ranks = []
+            tb = None
+            if adversarial and n > 1:
+                tb = [self.fresh("tiebreak", torch.int64) for _ in range(n)]
+                self.pc.append(z3.Distinct(*tb))
             for i in range(n):
                 rk = 0
                 for j in range(n):
                     if j == i:
                         continue
                     b = before(v[j], v[i])
-                    if j < i:
+                    if tb is not None:
+                        b = s_or(b, s_and(same(v[j], v[i]), tb[j] < tb[i]))
+                    elif j < i:
                         e = same(v[j], v[i])
                         self.tie_free.append(s_not(e))
                         b = s_or(b, e)
@@ -1133,13 +1142,21 @@ class Engine(TorchDispatchMode):
             descending = args[1] if len(args) > 1 else kw.get("descending", False)
         if a.dim() == 0:
             return a, SymTensor.from_vals([0], (), torch.int64)
-        return self._sorted_rows(a, dim % a.dim(), descending)
+        return self._sorted_rows(a, dim % a.dim(), descending, stable=bool(stable) if ov == "stable" else False)
 
-    def op_argsort(self, func, ov, a, dim=-1, descending=False, **kw):
-        return self._sorted_rows(a, dim % a.dim(), descending)[1]
+    def op_argsort(self, func, ov, a, *args, **kw):
+        if ov == "stable":
+            stable = args[0] if args else kw.get("stable", False)
+            dim = args[1] if len(args) > 1 else kw.get("dim", -1)
+            descending = args[2] if len(args) > 2 else kw.get("descending", False)
+        else:
+            stable = False
+            dim = args[0] if args else kw.get("dim", -1)
+            descending = args[1] if len(args) > 1 else kw.get("descending", False)
+        return self._sorted_rows(a, dim % a.dim(), descending, stable=bool(stable))[1]
 
     def op_topk(self, func, ov, a, k, dim=-1, largest=True, sorted=True):
-        return self._sorted_rows(a, dim % a.dim(), largest, k)
+        return self._sorted_rows(a, dim % a.dim(), largest, k, stable=False)
 
     # ---------------------------------------------------------------- data-dependent movement
     def _select_cell(self, cells, iv, label="index"):
